@@ -132,8 +132,8 @@ TEXT = {
         technique='deterministic simulation replayed in differing builds: identical seeds executed in {c++11,14,17,20} x {extras} x {NDEBUG} x {-O0,-O2} '
                   'builds, transcript (event-log) equality between builds + per-build reference model',
         text='A portable profile (9 vector, 3 FlatSet and, from C++17, 2 SmallSet configurations; standard operations, plus the extras where built) '
-             'executes the same seeds in every build of the matrix; the per-step transcripts (operation, results, size, capacity, contents, '
-             'allocator events, element events) must be byte-identical between builds, each build also checks its own std::vector/std::set '
+             'executes the same seeds in every build of the matrix; the per-step transcripts (operation, arguments, results, exceptions, size, capacity, contents) '
+             'must be byte-identical between builds, each build also checks its own std::vector/std::set '
              'model, SFINAE probes check that the extras are absent at compile time when disabled, and a matrix configuration that no longer '
              'compiles is a violation whose replay is the failing compile command.',
         note='Quick tier: a covering subset of 6 builds; thorough: all 32. One compiler (g++ 12).',
